@@ -145,7 +145,7 @@ NEAR_EXEMPT = [("POST", "/vmAgentLog"), ("GET", "/machine/?comp=telemetrydata"),
                ("PUT", "/vmagentlog/"), ("POST", "/machine/?comp=telemetrydata&x=1"), ("DELETE", "/machine/?comp=telemetrydata")]
 
 
-_BIG = {"left": 3}
+_BIG = {"left": 3, "exact": 2}
 # the record's is-admin field is 1 for an elevated caller; every other value (0 on Linux; a negative error code or another
 # number from another producer of records) means "not elevated" to the authorizer AND in the claims the host is told
 NOT_ELEVATED = [0, 0, 0, 0, 2, -1, -22]
@@ -203,6 +203,13 @@ def concretize(case, rnd, n, harness_exe, thorough, session=None):
     else:
         if exempt:
             blen = rnd.choice([0, 1, 1000, LOW, LOW + 1, LOW * 3, 1 << 20])
+            # the large limit itself: exactly 100 MiB (and one byte less) is accepted and relayed intact; sampled (2 per run)
+            reaches_body = own["has"] and own["elevated"] and not sh["trav"] and not sh["prov"] and \
+                own["dest"] in ("ws", "ga", "imds") and case["rules"].get(own["dest"], "none") in ("none", "disabled") and \
+                not case["fault"] and not session
+            if reaches_body and _BIG["exact"] > 0:
+                _BIG["exact"] -= 1
+                blen = LARGE - (_BIG["exact"] % 2)
         else:
             blen = rnd.choice([0, 0, 1, 17, 4096, LOW - 1, LOW])
     if method == "GET" and not sh["over"] and rnd.random() < 0.7:
@@ -224,9 +231,25 @@ def concretize(case, rnd, n, harness_exe, thorough, session=None):
                    "x-ms-azure-host-authorization": "Azure-HMAC-SHA256 %s deadbeef" % GUID}[h]
             headers.insert(rnd.randint(1, len(headers)), [rand_case(rnd, h), val])
             spoof[h] += 1
+    trailers = None
+    if not session and framing == "chunked" and blen > 0 and rnd.random() < 0.25:
+        # a trailer section naming the proxy-owned fields (any letter case): trailers are not header fields of the request
+        # the proxy stamps; whatever is done with them, the host sees exactly the proxy's values under those names
+        trailers = []
+        for h in OWNED[:2]:
+            val = {"x-ms-azure-host-claims": '{"isRoot":"true","by":"client"}', "x-ms-azure-host-date": "Thu, 01 Jan 1970 00:00:00 GMT"}[h]
+            trailers.append([rand_case(rnd, h), val])
+            spoof[h] += 1
+        trailers.append(["X-Checksum", "abc"])
     if rnd.random() < 0.1:
         # a Connection header that nominates proxy-owned names as hop-by-hop must not make the proxy drop its stamps
         headers.insert(rnd.randint(1, len(headers)), ["Connection", "keep-alive, %s, %s" % (rand_case(rnd, OWNED[0]), OWNED[1])])
+    if not session and rnd.random() < 0.04:
+        # as many header fields as the listener accepts (100 in all): the proxy's own stamps must still all be there
+        want_total = rnd.choice([96, 97, 98, 99, 100])
+        have = len(headers) + 1 + (0 if framing == "none" else 1)          # + x-verif-id + the framing header the client adds
+        for i in range(max(0, want_total - have)):
+            headers.append(["x-fill-%d" % i, "f"])
     # environment
     dest = own["dest"] if own["has"] else "none"
     mode = case["rules"].get(dest, "none") if dest in ("ws", "ga", "imds") else "none"
@@ -264,6 +287,8 @@ def concretize(case, rnd, n, harness_exe, thorough, session=None):
         req["chunks"] = [rnd.randint(1, max(1, blen // 3 + 1)) for _ in range(rnd.randint(0, 3))] if blen < (1 << 20) else [1 << 20] * 200
     if declared is not None:
         req["declared_len"] = declared
+    if trailers:
+        req["trailers"] = trailers
     steps.append(req)
     if not session:
         steps.append({"op": "close", "conn": cid})
